@@ -12,7 +12,7 @@ pub fn meta(tier: &str) -> CheckMeta {
         rule: "E-box + E-hist: corpus files generated from a structured description: single-test files for EVERY combination of name shape (plain, punctuation, containing an attribute-looking token, two lines) x attribute set (none, :skip, :error, :fail-fast, :language(x), :cst, two :language, :skip+:fail-fast) x input (words, multi-line, delimiter-looking lines ===, ---, -----, ===|||, parenthesised, invalid) x expected output (correct, wrong, missing, badly indented, with comments) x header length {3,5} x divider length {3,5} x suffix {none, |||} x line ending {LF, CRLF}, restricted to combinations that are well-formed under the documented delimiter rules; plus two- and three-test files built from every adjacent pair/triple of a fixed pool and 20-test files. Each file is taken through the history update, check, update, update with the real update code. Oracle (our own reader, keyed on the exact delimiter lines of the description): after the first update the file has the same number of tests with the same names, attribute lines, order and input bytes; a check run reports exactly the tests whose parse has errors (and that are not :error/:skip) as failures; the second and third update leave the file byte-identical. Non-trivial = files whose first update changes at least one expected output.",
         assumptions: vec!["inputs that would themselves be read as a longer divider or as a complete header block are excluded (the corpus format cannot express them)".into()],
         exhaustive: true,
-        bounds: json!({"tier": tier, "files_per_directory": 400}),
+        bounds: json!({"tier": tier, "single_test_files": "the complete product in both tiers", "one_directory_per_file": true}),
     }
 }
 
@@ -126,7 +126,7 @@ fn files(tier: &str) -> Vec<FileSpec> {
     let shapes: Vec<(usize, usize, &'static str, bool)> = { let mut v = vec![]; for h in [3usize, 5] { for d in [3usize, 5] { for s in ["", "|||"] { for c in [false, true] { v.push((h, d, s, c)); } } } } v };
     let attrs = attr_sets();
     // single-test files: the complete product
-    let stride = if tier == "mini" { 97 } else if tier == "quick" { 7 } else { 1 };
+    let stride = if tier == "mini" { 97 } else { 1 };
     let mut n = 0usize;
     for &(h, d, suffix, crlf) in &shapes { for name in NAMES { for a in &attrs { for input in INPUTS { for e in 0..5usize {
         n += 1;
